@@ -64,7 +64,7 @@ def h_op(f, ns, start='zero', kind='offline', same_start=False, grids=None):
     return body
 
 
-def h_nested(f, ns, start='zero'):
+def h_nested(f, ns, start='zero', twice=False):
     """nested formulas of the fragment that has a closed-form oracle (refct.rho_expr): pointwise operators over any
     variables, unary temporal operators over pointwise one-variable operands"""
     f = T(f)
@@ -73,6 +73,9 @@ def h_nested(f, ns, start='zero'):
     def body(env):
         A = env.A
         s = ct.make_spec('offline', 'out = ' + text(f), vs)
+        if twice:
+            first = {v: ct.signal(env, 'first_' + v, 2, 'zero') for v in vs}     # an earlier evaluate() of the same object on other data
+            s.evaluate(*[[v, [list(p) for p in first[v]]] for v in vs])
         sigs = {v: ct.signal(env, v, n, start) for v, n in zip(vs, ns)}
         out = s.evaluate(*[[v, [list(p) for p in sigs[v]]] for v in vs])
         out = [list(p) for p in out]
@@ -142,6 +145,10 @@ def obligations(tier, rng):
         two = len(refsem.variables(f)) > 1
         for ns in ([[2, 2]] if two else ([[3]] if quick else [[3], [4]])):
             out.append(ob('C04', 'nested', 'nested/%s/n=%s' % (text(f), ns), f=f, ns=ns, max_paths=60000, wall=900))
+    for f in [('once', X), ('historically', ('not', X)), ('once_t', X, 0, 1), ('always_t', X, 1, 2), ('eventually', X), ('and', ('once', X), ('historically', X)),
+              ('geq', X, C05), ('once', ('once', X)), ('and', ('once_t', X, 0, 1), ('always_t', Y, 0, 1))]:
+        two = len(refsem.variables(f)) > 1
+        out.append(ob('C04', 'nested', 'reuse/%s' % text(f), f=f, ns=[2, 2] if two else [3], twice=True, max_paths=60000, wall=900))
     for k in BINT:
         for a, b in [(1, 2)]:
             f = (k, X, Y, a, b)
